@@ -77,6 +77,9 @@ def scenarios2(rng, quick):
         scen(2, [B(1), D(1)], [B(2), D(2)]),
         scen(2, [B(1), D(1)], [B(3), D(3)]),
         scen(2, [B(1, 2), D(1, 2)], [B(3), Wt(2)]),
+        # both Begins beyond the window: two threads in ensureWindow / rebuildWindowLocked at the same time
+        scen(2, [B(3)], [B(4)]),
+        scen(2, [B(3), D(3)], [B(1), B(4)]),
     ]
     # seeded variation: one more scenario inside the envelope, one outside
     n1, n2 = rng.choice([(1, 2), (2, 1), (2, 2), (1, 3)])
@@ -103,7 +106,7 @@ def scenarios3(rng, quick):
 LABELS = ["op", "xlock", "last_load", "last_cas", "win_load", "win_lock", "rb_done", "rb_copy", "rb_store",
           "add_slot", "adv_done", "adv_last", "adv_win", "adv_slot", "adv_cas", "notify_lock",
           "wait_fast", "wait_lock", "wait_park",
-          "r_next", "r_last", "r_begun", "c_lock", "c_ts", "c_begun", "c_done"]     # WaterMarkImpl.tla Labels
+          "r_next", "r_last", "r_begun", "c_lock", "c_ts", "c_begun", "c_done", "c_assigned"]     # WaterMarkImpl.tla Labels
 
 
 def parse_json_lines(out, tag):
@@ -135,7 +138,54 @@ def gen_schedules(ctx, name, nthreads, scens, preempt, simulate=None, seed=None,
 
 
 TXN_LABELS = {"txn.read.next": "r_next", "txn.read.last": "r_last", "txn.read.begun": "r_begun", "txn.commit.lock": "c_lock",
-              "txn.commit.ts": "c_ts", "txn.commit.begun": "c_begun", "txn.commit.done": "c_done"}
+              "txn.commit.ts": "c_ts", "txn.commit.begun": "c_begun", "txn.commit.done": "c_done", "txn.commit.assigned": "c_assigned"}
+
+
+def thin(ctx, scheds, cap, thinnable):
+    """Keep at most cap schedules; only the named (large, exhaustive-in-depth) generators are sampled,
+    the small ones (every <= 1-pre-emption interleaving, random walks) are always kept whole."""
+    if len(scheds) > cap:
+        fixed = [s for s in scheds if s["src"] not in thinnable]
+        pool = [s for s in scheds if s["src"] in thinnable]
+        n = max(0, cap - len(fixed))
+        pool = [pool[i] for i in sorted(ctx.rng.sample(range(len(pool)), min(n, len(pool))))]
+        scheds = fixed + pool
+    for i, s in enumerate(scheds):
+        s["id"] = i
+    return scheds
+
+
+def runlength_schedules(generated):
+    """Bounded pre-emption in run-length form, independent of the code's step structure: for every
+    scenario, every order (a, b, c) of its threads and every j: a runs j steps, then b as long as it
+    can, then c, then a again (entries of a finished or blocked thread are skipped by the driver, the
+    tail completes the rest).  j ranges over the step counts TLC's schedules show for thread a, so a
+    change that moves a call (and thereby shortens or lengthens a thread's path to a yield point)
+    still gets every single-pre-emption position of the real code."""
+    import itertools
+    per = {}
+    for g in generated:
+        key = json.dumps({"w": g["w"], "progs": g["progs"]}, sort_keys=True)
+        cnt = {}
+        for h in g["hist"]:
+            cnt[h["t"]] = cnt.get(h["t"], 0) + 1
+        cur = per.setdefault(key, {})
+        for t, c in cnt.items():
+            cur[t] = max(cur.get(t, 0), c)
+    out = []
+    for key, steps in per.items():
+        sc = json.loads(key)
+        n = len(sc["progs"])
+        big = max(steps.values()) + 10
+        for order in itertools.permutations(range(1, n + 1)):
+            a = order[0]
+            for j in range(1, steps.get(a, 0) + 6):
+                sched = [a] * j
+                for b in order[1:]:
+                    sched += [b] * big
+                sched += [a] * big
+                out.append((sc, sched))
+    return out
 
 
 def label_of(point):
@@ -324,7 +374,7 @@ def project_txn(evs):
         elif e["e"] == "TxRead":
             out.append({"e": "TxRead", "t": e["t"], "k": e["k"], "v": e["v"]}); raw.append(n)
         elif e["e"] == "TxCommit":
-            out.append({"e": "TxCommit", "t": e["t"], "tok": e["tok"], "ok": e["ok"]}); raw.append(n)
+            out.append({"e": "TxCommit", "t": e["t"], "tok": e["tok"], "ok": e["ok"], "ks": e["ks"]}); raw.append(n)
     return out, raw
 
 
@@ -345,7 +395,7 @@ def run_c05(ctx):
         plan.append(("tsim3p", 3, three, 4, nsim))
     gens = [(name, pool.submit(gen_schedules, ctx, name, n, sc, k, simulate="num=%d" % sim if sim else None,
                                seed=ctx.seed * 100 + i if sim else None)) for i, (name, n, sc, k, sim) in enumerate(plan)]
-    scheds, gen_counts = [], {}
+    scheds, gen_counts, all_generated = [], {}, []
 
     def add(sc, hist, src, expect=None):
         lab = hist and isinstance(hist[0], dict)
@@ -360,12 +410,13 @@ def run_c05(ctx):
             raise Undecided("schedule generation %s produced nothing:\n%s" % (name, r.out[-1500:]))
         for g in lst:
             add(g, g["hist"], name)
-    cap = 2000 if quick else 40000
-    if len(scheds) > cap:
-        keep = sorted(ctx.rng.sample(range(len(scheds)), cap))
-        scheds[:] = [scheds[i] for i in keep]
-        for i, s in enumerate(scheds):
-            s["id"] = i
+        all_generated += lst
+    rl = runlength_schedules(all_generated)
+    for sc, sched in rl:
+        add(sc, sched, "rl")
+    gen_counts["rl"] = len(rl)
+    cap = 3200 if quick else 40000
+    scheds[:] = thin(ctx, scheds, cap, ("t2",) if quick else ("t2", "t3"))
     red = None
     if fut_red is not None:
         red = fut_red.result()
@@ -473,7 +524,7 @@ def run_c05(ctx):
     }, assumptions=[
         "the reference for a read at timestamp r is what the same DB shows at version r after all transactions have finished (GetVersionedEntry, memtable only)",
         "calls on readMark run without scheduling points; the commit pipeline's background goroutines are not scheduled (a step lasts until the thread's next yield point)",
-        "every commit writes both keys, no conflicts (committers do not read); window of 65536 slots: no rebuild (DB reopened every 400 schedules)",
+        "a commit of thread t writes the shared key k0 and its own key kt, no conflicts (committers do not read); window of 65536 slots: no rebuild (DB reopened every 400 schedules)",
         "TLC results hold for the scenarios in the cfg files (2 committers + 1 reader, or 2 threads with two transactions each)",
     ])
     pool.shutdown(wait=False)
@@ -535,7 +586,7 @@ def run(ctx):
         scheds.append(s)
         return s
 
-    gen_counts = {}
+    gen_counts, all_generated = {}, []
     for name, f in gens:
         lst, r = f.result()
         gen_counts[name] = len(lst)
@@ -544,12 +595,13 @@ def run(ctx):
             raise Undecided("schedule generation %s produced nothing:\n%s" % (name, r.out[-1500:]))
         for g in lst:
             add({"w": g["w"], "progs": g["progs"]}, g["hist"], name)
-    cap = 6000 if quick else 120000
-    if len(scheds) > cap:
-        keep = sorted(ctx.rng.sample(range(len(scheds)), cap))
-        scheds = [scheds[i] for i in keep]
-        for i, s in enumerate(scheds):
-            s["id"] = i
+        all_generated += lst
+    rl = runlength_schedules(all_generated)
+    for sc, sched in rl:
+        add(sc, sched, "rl")
+    gen_counts["rl"] = len(rl)
+    cap = 7500 if quick else 120000
+    scheds = thin(ctx, scheds, cap, ("p2", "p3", "p3k2"))
     # counterexamples of the expected-red model configurations (DESIGN.md 2.3 rule 2)
     red_res = {}
     for c, fid in red.items():
